@@ -44,7 +44,8 @@ def run(rep, tier, rng):
                        "(model vs implementation, dev profile); exhaustive sweep of ShapeType::from over all 2^32 codes in the "
                        "release build, every code that decodes compared with the model's table and the ESRI table; files whose header "
                        "type or record type is an ESRI code, a near miss or a random value (record with nothing but its type code, "
-                       "and with 16 more bytes) read by the generic reader; "
+                       "and with 16 more bytes) read by the generic reader; one shape of each type written: header and record "
+                       "carry the ESRI code; "
                        "non-trivial = distinct case")
     # 1. exhaustive sweep over all 2^32 codes (release build, 16 processes)
     lo, hi = -(1 << 31), (1 << 31) - 1
@@ -130,6 +131,20 @@ def run(rep, tier, rng):
         msg = oracle_file(c, r, m)
         if msg:
             rep.violation({"kind": "oracle", "what": msg, "case_kind": "read", "case": c})
+            break
+    # 5. the code as WRITTEN: one shape of each of the 13 types through the writer; header and record carry the ESRI code
+    import shapes as SH
+    wcases = [C.whist_case(True, 0, [("w", SH.gen_ctor(rng, code, "small"))]) for code in SH.ALL_CODES]
+    wimpl = stages.correspondence(rep, "write", dev, wcases, "whist(type code written)")
+    for code, c, r in zip(SH.ALL_CODES, wcases, wimpl):
+        res = C.parse_whist(r)
+        if "special" in res:
+            continue
+        buf, bx = res["shp"]["buf"], res["shx"]["buf"]
+        got = (struct.unpack("<i", buf[32:36])[0], struct.unpack("<i", buf[108:112])[0], struct.unpack("<i", bx[32:36])[0])
+        if got != (code, code, code):
+            rep.violation({"kind": "oracle", "what": "a %s is written with type codes %r (.shp header, record, .shx header), ESRI says %d"
+                           % (ESRI[code][3], got, code), "case_kind": "whist", "case": c})
             break
     rep.cov["distribution"] = {"codes_in_table_cases": len(cases), "valid_codes_found_by_sweep": len(valid)}
     rep.assumptions += ["ShapeType::from is a pure function of its i32 argument",
